@@ -150,6 +150,8 @@ type vfSM struct {
 	waiters    map[int]*vfWaiter
 	nextWid    int
 	blockedDel *vfBlockedDel   // a Del call blocked on the full write buffer (its goroutine is parked)
+	twin       *vfTwin         // a brand-new cache mirrored after a Clear (C15)
+	twinWanted bool            // only the C15 profile pays for the twin
 	delRemoved []uint64        // values removed from the map by a Del or its tombstone since the last drained check
 	replaying  bool            // a read of the mid-sweep program is being replayed on the model
 	calls      int             // client calls so far
@@ -196,21 +198,7 @@ func vfNewSM(cfg vfCfg) (*vfSM, func()) {
 	restore := func() { setBufSize, bucketDurationSecs = oldBuf, oldBucket }
 	s := &vfSM{cfg: cfg, resident: map[uint64]vfEnt{}, acct: map[uint64]int64{}, maxCost: cfg.MaxCost,
 		toks: map[uint64]*vfTokInfo{}, nextTok: 1, waiters: map[int]*vfWaiter{}, everTTL: map[uint64]bool{}, swept: map[uint64]bool{}, tainted: map[uint64]bool{}, deleted: map[uint64]bool{}}
-	conf := &Config[uint64, uint64]{
-		NumCounters: cfg.NumCounters, MaxCost: cfg.MaxCost, BufferItems: cfg.BufferItems, Metrics: cfg.Metrics,
-		IgnoreInternalCost: cfg.IgnoreIntern, TtlTickerDurationInSec: cfg.TickerSecs,
-		OnEvict: func(it *Item[uint64]) {
-			s.cb(vfCB{kind: vfCBEvict, key: it.Key, tok: it.Value, cost: it.Cost, exp: it.Expiration})
-		},
-		OnReject: func(it *Item[uint64]) { s.cb(vfCB{kind: vfCBReject, key: it.Key, tok: it.Value, cost: it.Cost}) },
-		OnExit:   func(v uint64) { s.cb(vfCB{kind: vfCBExit, tok: v}) },
-	}
-	if cfg.CostFn {
-		conf.Cost = vfCostFn
-	}
-	if cfg.ShouldUpdate {
-		conf.ShouldUpdate = vfShouldUpdate
-	}
+	conf := vfBuildConf(cfg, s)
 	s.t0 = time.Now()
 	s.lastTick = s.t0
 	c, err := NewCache(conf)
@@ -221,6 +209,109 @@ func vfNewSM(cfg vfCfg) (*vfSM, func()) {
 	s.c = c
 	s.halt()
 	return s, restore
+}
+
+// vfBuildConf: the cache configuration of a case; with s == nil no callbacks are installed (twin cache).
+func vfBuildConf(cfg vfCfg, s *vfSM) *Config[uint64, uint64] {
+	conf := &Config[uint64, uint64]{
+		NumCounters: cfg.NumCounters, MaxCost: cfg.MaxCost, BufferItems: cfg.BufferItems, Metrics: cfg.Metrics,
+		IgnoreInternalCost: cfg.IgnoreIntern, TtlTickerDurationInSec: cfg.TickerSecs,
+	}
+	if s != nil {
+		conf.OnEvict = func(it *Item[uint64]) {
+			s.cb(vfCB{kind: vfCBEvict, key: it.Key, tok: it.Value, cost: it.Cost, exp: it.Expiration})
+		}
+		conf.OnReject = func(it *Item[uint64]) { s.cb(vfCB{kind: vfCBReject, key: it.Key, tok: it.Value, cost: it.Cost}) }
+		conf.OnExit = func(v uint64) { s.cb(vfCB{kind: vfCBExit, tok: v}) }
+	}
+	if cfg.CostFn {
+		conf.Cost = vfCostFn
+	}
+	if cfg.ShouldUpdate {
+		conf.ShouldUpdate = vfShouldUpdate
+	}
+	if cfg.ConflictHash {
+		// as for string keys: every key has its own primary hash and a non-zero conflict hash
+		conf.KeyToHash = func(k uint64) (uint64, uint64) { return k, k*0x9e3779b97f4a7c15 | 1 }
+	}
+	return conf
+}
+
+// ---- twin: a brand-new cache that receives the same calls as the cleared one (C15 "as a fresh one would") ----
+
+type vfTwin struct {
+	c *Cache[uint64, uint64]
+}
+
+func vfNewTwin(cfg vfCfg, maxCost int64) *vfTwin {
+	c, err := NewCache(vfBuildConf(cfg, nil))
+	if err != nil {
+		panic(err)
+	}
+	c.UpdateMaxCost(maxCost)
+	c.stop <- struct{}{}
+	<-c.done
+	return &vfTwin{c: c}
+}
+
+func (t *vfTwin) stepOne() {
+	var items []*Item[uint64]
+	for {
+		select {
+		case it := <-t.c.setBuf:
+			items = append(items, it)
+			continue
+		default:
+		}
+		break
+	}
+	select {
+	case <-t.c.cleanupTicker.C:
+	default:
+	}
+	if len(items) == 0 {
+		return
+	}
+	go t.c.processItems()
+	t.c.setBuf <- items[0]
+	marker := &Item[uint64]{wait: make(chan struct{})}
+	t.c.setBuf <- marker
+	<-marker.wait
+	t.c.stop <- struct{}{}
+	<-t.c.done
+	for _, it := range items[1:] {
+		t.c.setBuf <- it
+	}
+}
+
+func (t *vfTwin) close() {
+	defer func() { _ = recover() }()
+	go t.c.processItems()
+	t.c.Close()
+}
+
+func (s *vfSM) dropTwin() {
+	if s.twin != nil {
+		s.twin.close()
+		s.twin = nil
+	}
+}
+
+// compareTwin: the cleared cache and the fresh one must answer every key alike.
+func (s *vfSM) compareTwin(vs *[]*vfViol, after string) {
+	if s.twin == nil {
+		return
+	}
+	for k := uint64(1); k <= uint64(s.cfg.Keys); k++ {
+		kh, _ := s.c.keyToHash(k)
+		a, aok := s.c.storedItems.Get(kh, 0)
+		b, bok := s.twin.c.storedItems.Get(kh, 0)
+		if a != b || aok != bok {
+			s.add(vs, vfV("C15", "cleared-cache-differs-from-a-fresh-one", "after %s: key %d reads (%d,%v) from the cache that was cleared and (%d,%v) from a new cache that received the same calls since the Clear", after, k, a, aok, b, bok))
+			s.dropTwin()
+			return
+		}
+	}
 }
 
 func (s *vfSM) cb(e vfCB) {
@@ -354,6 +445,7 @@ func (s *vfSM) sweepReal() {
 // shutdown is deferred by every property: it must leave no goroutine parked in the bubble.
 func (s *vfSM) shutdown() {
 	defer func() { _ = recover() }()
+	s.dropTwin()
 	if s.closed {
 		return
 	}
